@@ -176,10 +176,10 @@ class Ex:
                 self.assume(z3.Or(v.t == 0, z3.And(self.alloc[v.t], is_instance(v.t, ty.cls))))
         elif ty.is_heap and v.t is not None:
             self.assume(z3.Or(v.t == 0, self.alloc[v.t]))
-            if ty.kind in ("list",):
-                self.assume(z3.Or(v.t == 0, self.hmap("$len", INT)[v.t] >= 0))
+            if ty.kind in ("list",) and ty.args:
+                self.assume(z3.Or(v.t == 0, self.len_map(ty.args[0])[v.t] >= 0))
             if ty.kind == "arr":
-                self.assume(z3.Or(v.t == 0, self.hmap("$len", INT)[v.t] >= 0))
+                self.assume(z3.Or(v.t == 0, self.hmap("$alen", INT)[v.t] >= 0))
             if ty.kind == "dict":
                 self.assume(z3.Or(v.t == 0, self.hmap("$dlen", INT)[v.t] >= 0))
 
@@ -214,9 +214,24 @@ class Ex:
             for i, a in enumerate(ty.args):
                 self.wr(obj, f"{field}${i}", val.items[i], a)
             return
+        val = self.fit_list(val, ty)
         t = self.coerce(val, ty).t
         m = self.hmap(field, ty.sort())
         self.hset(field, ty.sort(), z3.Store(m, obj, t))
+
+    def fit_list(self, val, ty):
+        """a list value stored where a list of declared element type is expected"""
+        if ty.kind == "list" and val.ty.kind == "list" and ty.args:
+            if val.t is None:
+                from . import models
+                val = models.materialize(self, Val(Ty("list", args=[ty.args[0]]), None, meta=val.meta)) \
+                    if self.part(val.ty.args[0]) == self.part(ty.args[0]) else val
+                if val.t is None:
+                    raise Unsupported(f"list of {val.ty.args[0]} stored as list of {ty.args[0]}")
+                return val
+            if not val.ty.args or self.part(val.ty.args[0]) != self.part(ty.args[0]):
+                return self.retag(val, ty.args[0])
+        return val
 
     def new_obj(self, name, cname=None):
         if getattr(self, "pure_depth", 0) > 0:
@@ -236,15 +251,19 @@ class Ex:
         """heap closure: the elements of an allocated list are allocated (or None).  Lists of ints share the
         item map with lists of references; for them the fact is vacuous (it only makes fresh objects
         differ from those integers)."""
-        it0 = self.items_map(0, INT)
-        ln = self.hmap("$len", INT)
-        o = z3.Const(f"gh_o?{next(self.cnt)}", REF)
-        i = z3.Const(f"gh_i?{next(self.cnt)}", INT)
-        e = it0[o][i]
-        self.pc.append(z3.ForAll([o, i], z3.Implies(z3.And(self.alloc[o], 0 <= i, i < ln[o]), z3.Or(e == 0, self.alloc[e])),
-                                 patterns=[e], qid=f"good_heap_{next(self.cnt)}"))
-        o3 = z3.Const(f"gh_o?{next(self.cnt)}", REF)
-        self.pc.append(z3.ForAll([o3], ln[o3] >= 0, patterns=[ln[o3]], qid=f"good_heap_len_{next(self.cnt)}"))
+        for (field, sk), m in sorted(self.heap.items(), key=lambda kv: kv[0]):
+            if field.startswith("$len<"):
+                o3 = z3.Const(f"gh_o?{next(self.cnt)}", REF)
+                self.pc.append(z3.ForAll([o3], m[o3] >= 0, patterns=[m[o3]], qid=f"good_heap_len_{next(self.cnt)}"))
+            if field.startswith("$it0<") and m.sort().range() == z3.ArraySort(INT, INT) and \
+                    (field[5:].startswith("ref") or field[5:].startswith("list") or field[5:].startswith("arr") or field[5:].startswith("dict")):
+                part = field[5:-1]
+                ln = self.hmap(f"$len<{part}>", INT)
+                o = z3.Const(f"gh_o?{next(self.cnt)}", REF)
+                i = z3.Const(f"gh_i?{next(self.cnt)}", INT)
+                e = m[o][i]
+                self.pc.append(z3.ForAll([o, i], z3.Implies(z3.And(self.alloc[o], 0 <= i, i < ln[o]), z3.Or(e == 0, self.alloc[e])),
+                                         patterns=[e], qid=f"good_heap_{next(self.cnt)}"))
         for (field, sk), m in sorted(self.heap.items(), key=lambda kv: kv[0]):
             if field == "$dval" and m.sort().range() == z3.ArraySort(INT, INT):
                 d_, k_ = z3.Const(f"gh_d?{next(self.cnt)}", REF), z3.Const(f"gh_k?{next(self.cnt)}", INT)
@@ -260,7 +279,14 @@ class Ex:
         for (field, sk), m in sorted(self.heap.items(), key=lambda kv: kv[0]):
             if field in heapy and m.sort().range() == INT:
                 o2 = z3.Const(f"gh_o?{next(self.cnt)}", REF)
-                self.pc.append(z3.ForAll([o2], z3.Implies(self.alloc[o2], z3.Or(m[o2] == 0, self.alloc[m[o2]])),
+                facts = [self.alloc[m[o2]]]
+                # the declared class of the field (when every declaration of this field name agrees)
+                tys = {repr(ty) for (c, f), ty in spec.FIELD_TYPES.items() if f == field}
+                if len(tys) == 1:
+                    ty = next(ty for (c, f), ty in spec.FIELD_TYPES.items() if f == field)
+                    if ty.kind == "ref" and ty.cls in src.CLASSES:
+                        facts.append(typeof(m[o2]) == class_id(ty.cls) if ty.exact else is_instance(m[o2], ty.cls))
+                self.pc.append(z3.ForAll([o2], z3.Implies(self.alloc[o2], z3.Or(m[o2] == 0, z3.And(facts))),
                                          patterns=[m[o2]], qid=f"good_heap_{field}_{next(self.cnt)}"))
 
     def snapshot(self):
@@ -337,8 +363,10 @@ class Ex:
             return z3.BoolVal(False)
         if k == "list" and v.t is None:
             return v.meta["vlen"] > 0
-        if k in ("list", "arr"):
-            return z3.And(v.t != 0, self.hmap("$len", INT)[v.t] > 0)
+        if k == "list":
+            return z3.And(v.t != 0, self.len_map(v.ty.args[0])[v.t] > 0)
+        if k == "arr":
+            return z3.And(v.t != 0, self.hmap("$alen", INT)[v.t] > 0)
         if k == "dict":
             return z3.And(v.t != 0, self.hmap("$dlen", INT)[v.t] > 0)
         if k == "ref":
@@ -351,11 +379,34 @@ class Ex:
         raise Unsupported(f"truth value of {v.ty}")
 
     # ---- lists ---------------------------------------------------------------------------
-    def llen(self, lst):
-        return self.hmap("$len", INT)[lst.t]
+    @staticmethod
+    def part(et):
+        """type partition of a list's item maps: lists of differently typed elements cannot alias (their
+        static types are the trusted sidecar types), so they live in different heap maps"""
+        k = et.kind
+        if k == "ref":
+            c = et.cls
+            if c in src.CLASSES:
+                root = c
+                for b_ in src.mro(c):
+                    if b_ in src.CLASSES and b_ not in ("ABC", "Protocol"):
+                        root = b_
+                c = root
+            return f"ref:{c}" if c else "ref"
+        if k in ("list", "dict", "tuple"):
+            return f"{k}[{','.join(Ex.part(a) for a in et.args)}]"
+        if k == "arr":
+            return f"arr:{et.cls}"
+        return k
 
-    def items_map(self, comp_idx, sort):
-        return self.hmap(f"$it{comp_idx}", z3.ArraySort(INT, sort))
+    def len_map(self, et):
+        return self.hmap(f"$len<{self.part(et)}>", INT)
+
+    def llen(self, lst):
+        return self.len_map(lst.ty.args[0])[lst.t]
+
+    def items_map(self, comp_idx, sort, et=None):
+        return self.hmap(f"$it{comp_idx}<{self.part(et)}>", z3.ArraySort(INT, sort))
 
     def litem(self, lst, idx):
         """element `idx` (z3 Int, already normalised) of list value lst"""
@@ -365,7 +416,7 @@ class Ex:
         comps = et.comps()
         vals = []
         for k, ct in enumerate(comps):
-            m = self.items_map(k, ct.sort())
+            m = self.items_map(k, ct.sort(), et)
             v = Val(ct, m[lst.t][idx])
             vals.append(v)
         if et.kind == "tuple":
@@ -375,27 +426,41 @@ class Ex:
     def lset_items(self, lst, comp_vals_arrays):
         et = lst.ty.args[0]
         for k, ct in enumerate(et.comps()):
-            m = self.items_map(k, ct.sort())
-            self.hset(f"$it{k}", z3.ArraySort(INT, ct.sort()), z3.Store(m, lst.t, comp_vals_arrays[k]))
+            m = self.items_map(k, ct.sort(), et)
+            self.hset(f"$it{k}<{self.part(et)}>", z3.ArraySort(INT, ct.sort()), z3.Store(m, lst.t, comp_vals_arrays[k]))
 
     def litems_arrays(self, lst):
         et = lst.ty.args[0]
-        return [self.items_map(k, ct.sort())[lst.t] for k, ct in enumerate(et.comps())]
+        return [self.items_map(k, ct.sort(), et)[lst.t] for k, ct in enumerate(et.comps())]
 
     def new_list(self, et, name="list"):
         r = self.new_obj(name)
         lst = Val(Ty("list", args=[et]), r)
-        self.hset("$len", INT, z3.Store(self.hmap("$len", INT), r, z3.IntVal(0)))
+        self.hset(f"$len<{self.part(et)}>", INT, z3.Store(self.len_map(et), r, z3.IntVal(0)))
         return lst
 
     def set_len(self, lst, n):
-        self.hset("$len", INT, z3.Store(self.hmap("$len", INT), lst.t, n))
+        et = lst.ty.args[0]
+        self.hset(f"$len<{self.part(et)}>", INT, z3.Store(self.len_map(et), lst.t, n))
+
+    def retag(self, lst, et):
+        """an empty list literal gets its element type from its first use"""
+        old = lst.ty.args[0] if lst.ty.args else Ty("any")
+        if self.part(old) != self.part(et):
+            if old.kind != "any":
+                raise Unsupported(f"list of {old} used as list of {et}")
+            n = self.len_map(old)[lst.t]
+            lst.ty = Ty("list", args=[et])
+            self.set_len(lst, n)
+        else:
+            lst.ty = Ty("list", args=[et])
+        return lst
 
     def lappend(self, lst, v):
         et = lst.ty.args[0] if lst.ty.args else None
         if et is None or et.kind == "any":
             et = v.ty
-            lst.ty = Ty("list", args=[et])
+            self.retag(lst, et)
         n = self.llen(lst)
         arrs = self.litems_arrays(lst)
         comps = et.comps()
@@ -461,7 +526,7 @@ class Ex:
         tab = getattr(fr.fi, "_assign_ord", None)
         if tab is None:
             tab, counts = {}, {}
-            nodes = [n for n in ast.walk(fr.fi.node) if isinstance(n, (ast.Assign, ast.AnnAssign))]
+            nodes = [n for n in ast.walk(fr.fi.node) if isinstance(n, (ast.Assign, ast.AnnAssign, ast.AugAssign))]
             nodes.sort(key=lambda n: (n.lineno, n.col_offset))
             for n in nodes:
                 for t in (n.targets if isinstance(n, ast.Assign) else [n.target]):
@@ -482,6 +547,7 @@ class Ex:
         v = models.binop(self, type(s.op).__name__, cur, rhs, fr, inplace=True, node=s)
         if v is not None:
             self.assign(s.target, v, fr)
+            self.assign_hook(s.target, fr, v)
 
     def st_Return(self, s, fr):
         v = self.ev(s.value, fr) if s.value is not None else vnone()
@@ -668,6 +734,7 @@ class Ex:
             fr.locals[seq_name] = itv
         if ls.get("seq_base"):          # the sequence a `reversed(...)` iterates over, un-reversed
             fr.locals[ls["seq_base"]] = itv.meta.get("rev_of", itv) if itv.meta else itv
+            fr.locals["iter_reversed"] = vbool(bool(itv.meta and itv.meta.get("rev_of") is not None))
         if s.orelse:
             raise Unsupported("for/else")
 
@@ -1343,8 +1410,10 @@ class Ex:
         for k, ty in con.params.items():
             if k in bound and bound[k].ty.kind not in ("fn", "cls", "mod", "lambda"):
                 try:
+                    if ty.kind == "list" and bound[k].ty.kind == "list" and bound[k].t is not None:
+                        bound[k] = self.fit_list(bound[k], ty)
                     bound[k] = self.coerce(bound[k], ty)
-                    if ty.is_heap and (ty.args or ty.cls):
+                    if ty.is_heap and (ty.args or ty.cls) and not (bound[k].ty.kind == "list" and bound[k].t is None):
                         bound[k] = Val(ty, bound[k].t, meta=bound[k].meta)
                 except Unsupported:
                     pass
